@@ -4,7 +4,7 @@ MC          : AtomVer_MC (version order: total preorder, operator readings, glob
               triple of a bounded version grammar) and AtomMatch_MC (laws of Matches over every
               (atom, package) of a universe varying every field).
 spec -> code: AtomMatch_Export enumerates bounded universes of atoms and packages (blocks "ver",
-              "attr", "key", "slotop"); the real atom.match is evaluated on the FULL cross product of each
+              "attr", "key", "slotop", "use3"); the real atom.match is evaluated on the FULL cross product of each
               block, for the atom and for its "!" and "!!" forms.
 code -> spec: seeded random atoms (long digit runs, leading zeros, letters, stacked suffixes,
               revisions, slots, repositories, USE dependencies with defaults) against random
@@ -166,6 +166,8 @@ def perturb(r, v):
         w["nums"][i] = [0] + w["nums"][i]                            # leading zero (not in the first component)
     elif k == 11 and w["rev"]:
         w["rev"] = w["rev"] + [r.randint(0, 9)]                      # -r1 -> -r10
+    if w["sufs"] and w["sufs"][-1]["k"] == "p" and not w["sufs"][-1]["n"] and r.random() < 0.5:
+        w["sufs"][-1]["k"] = "pre"                                   # _p -> _pre : string prefix, another suffix
     return w
 
 
@@ -178,7 +180,7 @@ def rand_cases(r, n_atoms, per_atom):
         if op == "~":
             v["rev"] = []
         deps = []
-        for f in r.sample(flags, r.choice([0, 0, 1, 2])):
+        for f in r.sample(flags, r.choice([0, 0, 1, 2, 3, 3])):
             deps.append(dict(flag=f, neg=r.random() < 0.5, dflt=r.choice(["", "+", "-"])))
         slot = r.choice(["", "", "0", "1.2"])
         a = dict(blk="rnd", kind="atom", cat="c", pkg="p", op=op, ver=v, slot=slot,
@@ -227,7 +229,7 @@ def run(ck):
         atoms = [x for x in recs if x["kind"] == "atom"]
         pkgs = [x for x in recs if x["kind"] == "pkg"]
         pairs = []
-        for blk in ("ver", "attr", "key", "slotop"):
+        for blk in ("ver", "attr", "key", "slotop", "use3"):
             ai = [i + 1 for i, x in enumerate(atoms) if x["blk"] == blk]
             pi = [i + 1 for i, x in enumerate(pkgs) if x["blk"] == blk]
             if not ai or not pi:
